@@ -65,13 +65,28 @@ def build(s: DScn):
             ns[st.id] = obj
     by_attr = {}
     any_done = set()
+    # events given as id-less Event objects: only names that are valid attribute names, are not the attribute a
+    # transition list is assigned to, and do not clash with a state id or a method
+    ph = {}
+    if getattr(s, "placeholders", False):
+        from statemachine.event import Event
+        taken = {t.attr for t in s.trans if t.attr} | {st.id for st in s.states} | set(s.machine_methods) | {"states_"}
+        for t in s.trans:
+            # (one event per such transition, and no attribute assignment: the library re-binds placeholders one by one
+            # — remove, append — so the order of *several* events of a transition is not the written one; 11.5)
+            if len(t.events) == 1 and not t.attr and not getattr(t, "any_group", 0):
+                n = t.events[0]
+                if n.isidentifier() and n.isascii() and n not in taken and n not in ph:
+                    ph[n] = Event(name="Shown as " + n)
     for t in s.trans:
         if getattr(t, "any_group", 0):
             if t.any_group in any_done:
                 continue
             any_done.add(t.any_group)
         kw = {}
-        if t.events:
+        if len(t.events) == 1 and t.events[0] in ph and not t.attr and not getattr(t, "any_group", 0):
+            kw["event"] = [ph[t.events[0]]] if t.event_as_list else ph[t.events[0]]
+        elif t.events:
             kw["event"] = list(t.events) if t.event_as_list else " ".join(t.events)
         if t.internal:
             kw["internal"] = True
@@ -90,6 +105,10 @@ def build(s: DScn):
             by_attr[t.attr] = (by_attr[t.attr] | tl) if t.attr in by_attr else tl
     for a, tl in by_attr.items():
         ns[a] = tl
+    used = {t.events[0] for t in s.trans
+            if len(t.events) == 1 and t.events[0] in ph and not t.attr and not getattr(t, "any_group", 0)}
+    for n in sorted(used):
+        ns[n] = ph[n]
     if getattr(s, "coro", False):
         async def after_transition(self):
             return None
